@@ -449,6 +449,35 @@ def systematic(seed: int) -> List[J]:
     return out
 
 
+def sibling(c: J, how: int) -> Optional[J]:
+    """A method that differs from c in one respect only and lives in the same process, so that
+    anything remembered from c (memoised segments, class-level tables) shows up as a wrong
+    answer of the sibling.  how 0: interval types of the limits swapped CLOSED<->OPEN (values
+    kept); how 1: offsets shifted by one (limits kept)."""
+    import copy
+    if c["cat"] not in ("LINEAR", "SCALE-LINEAR") or c.get("risky"):
+        return None
+    s = copy.deepcopy(c)
+    changed = False
+    for sc in s["compu"]["i2p"]["scales"]:
+        if how == 0:
+            for key in ("lo", "hi"):
+                v = sc.get(key)
+                if v is not None and v[0] is not None and v[1] in ("CLOSED", "OPEN", None):
+                    sc[key] = (v[0], "OPEN" if v[1] in ("CLOSED", None) else "CLOSED")
+                    changed = True
+        elif sc.get("num"):
+            sc["num"] = [sc["num"][0] + 1] + list(sc["num"][1:])
+            if "inv" in sc:
+                continue
+            changed = True
+    if not changed:
+        return None
+    s["variant"] = c["variant"] + ("/sibling-intervals" if how == 0 else "/sibling-offset")
+    s["lk"] = sorted(set(kinds_of(s["compu"])))
+    return s
+
+
 def randomized(r: random.Random, n: int) -> Iterator[J]:
     for _ in range(n):
         k = r.randrange(1 << 20)
